@@ -251,12 +251,11 @@ func (s lstepS) String() string {
 		lib.I(int64(s.mode)), lib.I(int64(s.k)), lib.U(s.x), lib.U(s.y), lib.U(s.z))
 }
 
-func newLsnDrv() *lsnDrv {
+func newLsnDrv(log *slog.Logger) *lsnDrv {
 	d := &lsnDrv{buf: make([]byte, 65536)}
 	timebase.RegisterClock(sysClock{})
 	provider := ntske.NewProvider()
 	d.srv = lsnOwnAddr(6)
-	log := slog.New(slog.DiscardHandler)
 	ctx := context.Background()
 	server.StartIPServer(ctx, log, &net.UDPAddr{IP: d.srv, Port: lsnIPPort}, 0, provider)
 	server.StartSCIONServer(ctx, log, "" /* daemon */, &net.UDPAddr{IP: d.srv, Port: lsnScionPort}, 0, provider)
@@ -352,26 +351,31 @@ func scionPayload(b []byte) (pl []byte, ok bool) {
 	return udp.Payload, true
 }
 
-// exchange sends one NTP payload as the step's client and returns the NTP payload of the reply.
-func (d *lsnDrv) exchange(s lstepS, payload []byte) ([]byte, bool) {
-	var c *net.UDPConn
-	var dst *net.UDPAddr
-	pkt := payload
+// conn returns the socket and the listener address of a step's client.
+func (d *lsnDrv) conn(s lstepS) (*net.UDPConn, *net.UDPAddr) {
 	if s.lsn == 0 {
-		c = d.ip[s.a][s.b]
-		dst = &net.UDPAddr{IP: d.srv, Port: lsnIPPort}
-	} else {
-		c = d.under[s.u]
-		dst = &net.UDPAddr{IP: d.srv, Port: lsnScionPort}
-		pkt = d.scionPkt(s, payload)
+		return d.ip[s.a][s.b], &net.UDPAddr{IP: d.srv, Port: lsnIPPort}
 	}
-	if n := d.drain(c); n > 0 {
-		lsnNote(fmt.Sprintf("c06: %d unexpected datagrams were queued on a client socket", n))
+	return d.under[s.u], &net.UDPAddr{IP: d.srv, Port: lsnScionPort}
+}
+
+// send sends one NTP payload as the step's client.
+func (d *lsnDrv) send(s lstepS, payload []byte) bool {
+	c, dst := d.conn(s)
+	pkt := payload
+	if s.lsn == 1 {
+		pkt = d.scionPkt(s, payload)
 	}
 	if _, err := c.WriteToUDP(pkt, dst); err != nil {
 		lsnNote("c06: write failed: " + err.Error())
-		return nil, false
+		return false
 	}
+	return true
+}
+
+// recv returns the NTP payload of the next datagram on the step's socket.
+func (d *lsnDrv) recv(s lstepS) ([]byte, bool) {
+	c, _ := d.conn(s)
 	tmo := lsnReadTmo
 	if d.lost {
 		tmo = time.Second
@@ -395,6 +399,18 @@ func (d *lsnDrv) exchange(s lstepS, payload []byte) ([]byte, bool) {
 		return nil, false
 	}
 	return b[:ntp.PacketLen], true
+}
+
+// exchange sends one NTP payload as the step's client and returns the NTP payload of the reply.
+func (d *lsnDrv) exchange(s lstepS, payload []byte) ([]byte, bool) {
+	c, _ := d.conn(s)
+	if n := d.drain(c); n > 0 {
+		lsnNote(fmt.Sprintf("c06: %d unexpected datagrams were queued on a client socket", n))
+	}
+	if !d.send(s, payload) {
+		return nil, false
+	}
+	return d.recv(s)
 }
 
 func be64(b []byte) uint64 { return binary.BigEndian.Uint64(b) }
@@ -672,7 +688,7 @@ func parseLsnScript(sv string) []lstepS {
 func lsnChild(a lib.Args) {
 	lout = bufio.NewWriterSize(os.Stdout, 1<<20)
 	defer lout.Flush()
-	d := newLsnDrv()
+	d := newLsnDrv(slog.New(slog.DiscardHandler))
 	if a.Replay != "" {
 		for _, l := range lib.ReplayLines(a.Replay) {
 			if l[0] == "lsn.hist" && !d.lost {
